@@ -277,7 +277,7 @@ GenLikeFam(ix, sd) ==
 \* Shapes the expression simplifier has rewrite rules for, over random sub-expressions that are REUSED inside the
 \* shape (A = A, A AND NOT A, A OR (A AND B), X >= c AND X <= c, NOT (..), IN-list algebra, CASE folding, LIKE,
 \* arithmetic identities, casts compared with literals, constant folding).
-SimpForms == 122
+SimpForms == 147
 SimpTotal == SimpForms * 12
 GenSimp(TBL, ix, sd) ==
   LET Sch == SchOf(TBL)
@@ -430,14 +430,108 @@ GenSimp(TBL, ix, sd) ==
     [] t = 116 -> ik(CastE(k, neg, L(1)))
     [] t = 117 -> bk(Bin("and", Bin("or", Pb, Qb), Bin("or", Pb, Rb)))
     [] t = 118 -> bk(Bin(PickSeq(<<"and", "or">>, Mix(sd, 5)), Bin(cmp, X, Y), Un("not", Bin(cmp, X, Y))))
+    \* bitwise identities / absorption / shifts (the shift templates only on BIGINT), nvl
+    [] t = 123 -> ik(Bin("&", X, zero))
+    [] t = 124 -> ik(Bin("&", zero, X))
+    [] t = 125 -> ik(Bin("|", X, zero))
+    [] t = 126 -> ik(Bin("|", zero, X))
+    [] t = 127 -> ik(Bin("^", X, zero))
+    [] t = 128 -> ik(Bin("&", X, X))
+    [] t = 129 -> ik(Bin("|", X, X))
+    [] t = 130 -> ik(Bin("^", X, X))
+    [] t = 131 -> ik(Bin("&", X, Bin("|", X, Y)))
+    [] t = 132 -> ik(Bin("|", X, Bin("&", Y, X)))
+    [] t = 133 -> ik(Bin("&", Bin("&", Y, X), X))
+    [] t = 134 -> ik(Bin("^", X, Bin("^", Y, X)))
+    [] t = 135 -> ik(Bin(IF TBL = "A" THEN ">>" ELSE "|", X, zero))
+    [] t = 136 -> ik(Bin(IF TBL = "A" THEN "<<" ELSE "^", X, zero))
+    [] t = 137 -> ik(IF TBL = "A" THEN Bin("<<", X, LitK(I(PickSeq(<<1, 2, 3>>, Mix(sd, 5))), k)) ELSE Bin("&", X, L(1)))
+    [] t = 138 -> ik(IF TBL = "A" THEN Bin(">>", X, LitK(I(PickSeq(<<1, 2, 3>>, Mix(sd, 5))), k)) ELSE Bin("|", X, L(1)))
+    [] t = 139 -> ik(Bin(PickSeq(<<"&", "|", "^">>, Mix(sd, 5)), Bin(PickSeq(<<"&", "|", "^">>, Mix(sd, 7)), L(1), L(2)), X))
+    [] t = 140 -> ik(NvlE(X, Y))
+    [] t = 141 -> ik(NvlE(nulk, X))
+    [] t = 142 -> ik(NvlE(L(1), X))
+    [] t = 143 -> bk(Bin(cmp, Bin(PickSeq(<<"&", "|", "^">>, Mix(sd, 5)), X, L(1)), L(2)))
+    \* arithmetic negation combined with bitwise operators (the simplifier has "!A & A" rules keyed on Expr::Negative)
+    [] t = 144 -> ik(Bin("&", UnArithE(k, "neg", X), X))
+    [] t = 145 -> ik(Bin("&", X, UnArithE(k, "neg", X)))
+    [] t = 146 -> ik(Bin("|", UnArithE(k, "neg", X), X))
+    [] t = 147 -> ik(Bin("^", X, UnArithE(k, "neg", X)))
     \* conjunctions of comparisons of one COLUMN with literals (simplify_predicates keeps the most restrictive bound)
     [] t = 119 -> bk(Bin("and", Bin(pc(1), KC, L(1)), Bin(pc(2), KC, L(2))))
     [] t = 120 -> bk(Bin("and", Bin("and", Bin(pc(1), KC, L(1)), Bin(pc(2), KC, L(2))), Bin(pc(3), KC, L(3))))
     [] t = 121 -> bk(Bin("and", Bin("and", Bin(pc(1), L(1), KC), Bin(pc(2), KC, L(2))), Pb))
     [] t = 122 -> bk(Bin("and", Bin("and", Bin("=", KC, L(1)), Bin(pc(2), KC, L(2))), Bin(pc(3), Col(PickCol(Sch, k, Mix(sd, 95))), L(3))))
 
+
+\* Regular-expression operators, LIKE with wildcard characters IN THE DATA, starts_with and nvl over table C (strings that
+\* contain _ % . as ordinary characters): the shapes the simplifier rewrites into LIKE / = / IN / IS NOT NULL.
+Alt(st, en, items) == [s |-> st, e |-> en, items |-> items]
+Re(grp, alts) == [null |-> FALSE, grp |-> grp, alts |-> alts]
+ReNull == [null |-> TRUE, grp |-> FALSE, alts |-> <<>>]
+Wfo_o == <<11, 12, 31, 12>>
+Wfoxo == <<11, 12, 13, 12>>
+Wfopo == <<11, 12, 32, 12>>
+WFOXO == <<21, 22, 23, 22>>
+Wadotb == <<1, 33, 2>>
+RePool == <<
+  Re(FALSE, <<Alt(TRUE, TRUE, Wfo_o)>>), Re(FALSE, <<Alt(TRUE, TRUE, Wfoxo)>>), Re(FALSE, <<Alt(TRUE, TRUE, Wfopo)>>),
+  Re(FALSE, <<Alt(TRUE, TRUE, WFOXO)>>), Re(FALSE, <<Alt(TRUE, TRUE, <<1>>)>>), Re(FALSE, <<Alt(TRUE, TRUE, Wadotb)>>),
+  Re(FALSE, <<Alt(TRUE, TRUE, <<1, 203, 2>>)>>), Re(FALSE, <<Alt(TRUE, TRUE, <<11, 12, 203, 12>>)>>),
+  Re(FALSE, <<Alt(FALSE, FALSE, Wfo_o)>>), Re(FALSE, <<Alt(FALSE, FALSE, <<12>>)>>), Re(FALSE, <<Alt(FALSE, FALSE, Wfopo)>>),
+  Re(FALSE, <<Alt(FALSE, FALSE, <<31>>)>>), Re(FALSE, <<Alt(FALSE, FALSE, <<32>>)>>), Re(FALSE, <<Alt(FALSE, FALSE, <<13>>)>>),
+  Re(FALSE, <<Alt(FALSE, FALSE, <<1, 203, 2>>)>>), Re(FALSE, <<Alt(FALSE, FALSE, Wadotb)>>),
+  Re(FALSE, <<Alt(TRUE, FALSE, <<11, 12>>)>>), Re(FALSE, <<Alt(TRUE, FALSE, <<11, 12, 31>>)>>), Re(FALSE, <<Alt(TRUE, FALSE, <<1>>)>>),
+  Re(FALSE, <<Alt(FALSE, TRUE, <<12>>)>>), Re(FALSE, <<Alt(FALSE, TRUE, <<31, 12>>)>>), Re(FALSE, <<Alt(FALSE, TRUE, <<32, 12>>)>>),
+  Re(FALSE, <<Alt(FALSE, TRUE, <<2>>)>>),
+  Re(TRUE, <<Alt(TRUE, TRUE, Wfo_o)>>), Re(TRUE, <<Alt(TRUE, TRUE, Wfo_o), Alt(TRUE, TRUE, Wfoxo)>>),
+  Re(TRUE, <<Alt(TRUE, TRUE, <<1>>), Alt(TRUE, TRUE, <<2>>)>>),
+  Re(TRUE, <<Alt(TRUE, TRUE, Wfopo), Alt(TRUE, TRUE, Wadotb), Alt(TRUE, TRUE, WFOXO)>>),
+  Re(FALSE, <<Alt(TRUE, TRUE, <<1>>), Alt(TRUE, TRUE, <<2>>)>>), Re(FALSE, <<Alt(FALSE, FALSE, Wfo_o), Alt(TRUE, FALSE, <<1>>)>>),
+  Re(FALSE, <<Alt(FALSE, FALSE, <<1>>), Alt(FALSE, FALSE, <<2>>)>>), Re(FALSE, <<Alt(TRUE, TRUE, Wfo_o), Alt(FALSE, FALSE, <<13>>)>>),
+  Re(FALSE, <<Alt(FALSE, FALSE, <<>>)>>), Re(FALSE, <<Alt(TRUE, TRUE, <<>>)>>), Re(FALSE, <<Alt(FALSE, FALSE, <<204>>)>>),
+  Re(FALSE, <<Alt(TRUE, TRUE, <<204>>)>>), Re(FALSE, <<Alt(FALSE, FALSE, <<11, 204>>)>>), Re(FALSE, <<Alt(TRUE, TRUE, <<11, 204, 12>>)>>),
+  ReNull >>
+LxPool == << Wfo_o, <<11, 12, 102, 12>>, Wfopo, <<11, 12, 101, 12>>, <<101>>, <<101, 12>>, <<11, 101>>, <<102, 102, 102, 102>>, <<>>,
+             <<1>>, WFOXO, <<101, 31, 101>>, Wadotb, <<1, 102, 2>>, <<101, 101>>, Wfoxo, <<101, 32, 101>>, <<102>> >>
+RxOps == <<"~", "~*", "!~", "!~*">>
+RxForms == 12
+RxOperands == 6
+RxTotal == RxForms * 4 * RxOperands * Len(RePool)
+GenRx(ix, sd) ==
+  LET form == Digit(ix, 1, RxForms) + 1
+      f == RxOps[Digit(ix, RxForms, 4) + 1]
+      oi == Digit(ix, RxForms * 4, RxOperands)
+      ri == Digit(ix, RxForms * 4 * RxOperands, Len(RePool)) + 1
+      xl(j) == LitK(XStr(Rnd(Mix(sd, j), 8) + 1), "x")
+      opnd == CASE oi = 0 -> Col(1)
+                [] oi = 1 -> Col(1)
+                [] oi = 2 -> Coalesce(<<Col(1), LitK(XStr(8), "x")>>)
+                [] oi = 3 -> xl(1)
+                [] oi = 4 -> IF Chance(50, Mix(sd, 2)) THEN LitK(Null, "x") ELSE NvlE(Col(1), LitK(XStr(7), "x"))
+                [] oi = 5 -> CaseE(<< <<Col(2), Col(1)>> >>, xl(3))
+      rx == RegexE(f, opnd, RePool[ri])
+      rx2 == RegexE(PickSeq(RxOps, Mix(sd, 4)), opnd, RePool[Rnd(Mix(sd, 5), Len(RePool)) + 1])
+      lf == IF f \in {"~*", "!~*"} THEN "ilike" ELSE "like"
+      lx == LikeXE(lf, opnd, LxPool[((ri - 1) % Len(LxPool)) + 1], f \in {"!~", "!~*"})
+      sw == StartsWithE(opnd, IF Chance(85, Mix(sd, 6)) THEN xl(7) ELSE LitK(Null, "x"))
+      bk(e1) == [k |-> "b", e |-> e1] IN
+  CASE form = 1 -> bk(rx)
+    [] form = 2 -> bk(Un("not", rx))
+    [] form = 3 -> bk(Bin(PickSeq(<<"and", "or">>, Mix(sd, 8)), rx, Col(3)))
+    [] form = 4 -> bk(Bin(PickSeq(<<"and", "or">>, Mix(sd, 8)), rx, rx2))
+    [] form = 5 -> [k |-> "i", e |-> CaseE(<< <<rx, Col(4)>> >>, IF Chance(50, Mix(sd, 9)) THEN LitK(Null, "i") ELSE LitK(I(0), "i"))]
+    [] form = 6 -> bk(Un(PickSeq(<<"isnull", "isnottrue", "istrue", "isnotnull">>, Mix(sd, 8)), rx))
+    [] form = 7 -> bk(lx)
+    [] form = 8 -> bk(Un("not", lx))
+    [] form = 9 -> bk(sw)
+    [] form = 10 -> bk(Bin(PickSeq(<<"and", "or">>, Mix(sd, 8)), sw, Un("not", lx)))
+    [] form = 11 -> bk(IF Chance(50, Mix(sd, 8)) THEN Bin(PickSeq(<<"=", "<>", "<", ">=">>, Mix(sd, 9)), opnd, xl(10))
+                       ELSE InList(opnd, <<xl(11), xl(12), IF Chance(30, Mix(sd, 13)) THEN LitK(Null, "x") ELSE xl(14)>>, Chance(40, Mix(sd, 15))))
+    [] form = 12 -> bk(Bin("=", NvlE(opnd, xl(16)), xl(17)))
+
 Total(fam, tbl) == CASE fam = "inlist" -> InListTotal(tbl) [] fam = "case" -> CaseTotal(tbl)
-                     [] fam = "guard" -> GuardTotal [] fam = "like" -> LikeTotal [] fam = "simp" -> SimpTotal [] OTHER -> M
+                     [] fam = "guard" -> GuardTotal [] fam = "like" -> LikeTotal [] fam = "simp" -> SimpTotal [] fam = "rx" -> RxTotal [] fam = "rxcore" -> 4 * Len(RePool) [] OTHER -> M
 \* number of cases of plan entry p
 CountOf(p) == IF PLAN[p].n > Total(PLAN[p].fam, PLAN[p].tbl) THEN Total(PLAN[p].fam, PLAN[p].tbl) ELSE PLAN[p].n
 GenCase(p, n) ==
@@ -452,6 +546,9 @@ GenCase(p, n) ==
     [] fam = "guard" -> GenGuard(tbl, ix, Mix(sd, 4))
     [] fam = "like" -> GenLikeFam(ix, Mix(sd, 4))
     [] fam = "simp" -> GenSimp(tbl, ix, Mix(sd, 4))
+    [] fam = "rx" -> GenRx(ix, Mix(sd, 4))
+    \* the core of the regex family, always enumerated: column ~ / ~* / !~ / !~* every pattern of RePool
+    [] fam = "rxcore" -> GenRx(RxForms * (ix % 4) + RxForms * 4 * RxOperands * (ix \div 4), Mix(sd, 4))
 
 (* ---------------- emission ---------------- *)
 \* compact value code: the kind of every value of a case is the case's result kind
@@ -478,7 +575,8 @@ Emit ==
   IF vp = 0 THEN PrintT(<<"CASE", ToJson([id |-> 0,
            \* row i (1-based) of a table has in column c the value vals[c][((i-1) div strides[c]) mod Len(vals[c]) + 1]
            tables |-> [A |-> [schema |-> SchA, vals |-> [c \in 1..4 |-> ValsOf(SchA[c])], strides |-> StridesOf("A")],
-                       B |-> [schema |-> SchB, vals |-> [c \in 1..4 |-> ValsOf(SchB[c])], strides |-> StridesOf("B")]],
+                       B |-> [schema |-> SchB, vals |-> [c \in 1..4 |-> ValsOf(SchB[c])], strides |-> StridesOf("B")],
+                       C |-> [schema |-> SchC, vals |-> [c \in 1..4 |-> ValsOf(SchC[c])], strides |-> StridesOf("C")]],
            pats |-> PatPool, errcode |-> ErrCode, nullcode |-> NullCode])>>)
   ELSE IF vn < 0 THEN TRUE
   ELSE PrintT(<<"CASE", ToJson([id |-> vn, p |-> vp, fam |-> PLAN[vp].fam, tbl |-> PLAN[vp].tbl, k |-> vk, e |-> ve,
